@@ -23,6 +23,7 @@ EXPLANATION = (
     "stored copy and removed on restore; (R5) on_missing is validated before execution and its handling is exhaustive over the three declared "
     "values (ignore returns silently, warn warns, error raises); (R6) what a nested graph exposes and the nested run's default selection implement "
     "one policy. R3 also requires (CFG) that every explicit run-time selection other than '**' reaches the membership check against graph.outputs, because the collectors use any such object as the list of names to return. R5 also requires that every explicit selection (string shorthand or collection) is collected under the caller's on_missing policy; the collectors are found by their role in filter_outputs, not by name."
+    " R5 also requires that every requested name absent from the state reaches the on_missing policy; R3 that the sentinel is only compared by identity."
 )
 NOT_DECIDED = "That the forward-reachability computation itself is right (a graph algorithm over data); results of failed/paused runs beyond using the same filter."
 
